@@ -580,7 +580,13 @@ def handleStep : List Sx → String
           | none => none)
         let pf1 := match pre.exec, obs with
           | .ident n :: e, some o =>
-            if encState o == encState (C07.identStep pre n e) then "" else " PROPFAIL C07 name step must yield " ++ encState (C07.identStep pre n e)
+            if encState o == encState (C07.identStep pre n e) then ""
+            else " PROPFAIL C07 name step must yield " ++ encState (C07.identStep pre n e) ++
+              -- a bound LIST is code to be executed: the name step pushes the list itself, the next step unpacks it
+              -- first element on top (C06: executing a list runs its elements left to right)
+              (match (if pre.quote then none else bindLookup n pre.bindings) with
+               | some (.list _) => " PROPFAIL C06 a name bound to a list must push that list on EXEC, to be executed left to right by the following steps"
+               | _ => "")
           | .list xs :: e, some o =>
             if encState o == encState { pre with exec := xs ++ e } then "" else " PROPFAIL C06 a list must be unpacked first element on top"
           | _, _ => ""
